@@ -63,6 +63,7 @@ type lexer struct {
 	r     io.RuneScanner
 	n     int
 	token chan interface{}
+	done  chan struct{}
 
 	mu     sync.Mutex
 	err    error
@@ -76,6 +77,7 @@ func newLexer(env *ExecEnv, r io.RuneScanner) *lexer {
 		env:    env,
 		r:      r,
 		token:  make(chan interface{}),
+		done:   make(chan struct{}),
 		cancel: make(chan struct{}),
 	}
 	go l.run()
@@ -83,6 +85,12 @@ func newLexer(env *ExecEnv, r io.RuneScanner) *lexer {
 }
 
 func (l *lexer) Lex(lval *yySymType) int {
+	select {
+	case <-l.cancel:
+		// an error has been reported; the rest of the input is not evaluated
+		return 0
+	default:
+	}
 	switch tok := (<-l.token).(type) {
 	case token:
 		lval.expr.s = tok.val
@@ -90,6 +98,8 @@ func (l *lexer) Lex(lval *yySymType) int {
 	case int:
 		lval.op = ops[tok]
 		return tok
+	case lexError:
+		l.Error(string(tok))
 	}
 	return 0
 }
@@ -97,6 +107,7 @@ func (l *lexer) Lex(lval *yySymType) int {
 func (l *lexer) run() {
 	defer func() {
 		close(l.token)
+		close(l.done)
 
 		if e := recover(); e != nil && e != bailout {
 			// re-panic
@@ -329,7 +340,8 @@ func (l *lexer) lexOp() action {
 			}
 		}
 	default:
-		l.Error(fmt.Sprintf("unexpected %q", r))
+		// reported by Lex, in the order of the input
+		l.send(lexError(fmt.Sprintf("unexpected %q", r)))
 		return nil
 	}
 	l.emit(op)
@@ -348,6 +360,10 @@ func (l *lexer) emit(typ int) {
 	default:
 		tok = typ
 	}
+	l.send(tok)
+}
+
+func (l *lexer) send(tok interface{}) {
 	select {
 	case l.token <- tok:
 	case <-l.cancel:
@@ -362,6 +378,18 @@ func (l *lexer) read() (rune, error) {
 
 func (l *lexer) unread() {
 	l.r.UnreadRune()
+}
+
+// wait stops the lexer goroutine and waits for it to exit.
+func (l *lexer) wait() {
+	l.mu.Lock()
+	select {
+	case <-l.cancel:
+	default:
+		close(l.cancel)
+	}
+	l.mu.Unlock()
+	<-l.done
 }
 
 func (l *lexer) Error(s string) {
@@ -395,6 +423,10 @@ type token struct {
 	typ int
 	val string
 }
+
+// lexError is sent instead of a token for a character that cannot
+// start a token.
+type lexError string
 
 // ArithExprError represents an arithmetic expression error.
 type ArithExprError struct {
